@@ -52,7 +52,7 @@ type Ctx struct {
 
 func NewCtx() *Ctx {
 	return &Ctx{seen: map[[16]byte]struct{}{}, failKeys: map[string]int{},
-		res: Result{Histograms: map[string]map[string]int64{}, Samples: []any{}, Failures: []Failure{}}}
+		res: Result{Histograms: map[string]map[string]int64{}, Samples: []any{}, Failures: []Failure{}, Observations: []Failure{}}}
 }
 
 func (c *Ctx) Thorough() bool { return c.Tier == "thorough" }
